@@ -567,7 +567,9 @@ def check_property(prop, tier, seed, replay=None):
             real.append(f)
     failed_keys = {(f['unit'], f['function'], f['label'] or '<implicit: no panic, no overflow, termination, unlabelled clauses>') for f in failures}
     n_obl = len(obligations)
-    n_dis = len([o for o in obligations if (o['unit'], o['function'], o['label']) not in failed_keys])
+    # a labelled precondition fails at the CALL site: the obligation it belongs to is the callee's labelled clause
+    failed_labels = {(f['unit'], f['label']) for f in failures if f['label']}
+    n_dis = len([o for o in obligations if (o['unit'], o['function'], o['label']) not in failed_keys and (o['unit'], o['label']) not in failed_labels])
     # ------------------------------------------------ evidence
     fn_under_contract = sorted({'%s::%s (%s)' % (r2.file, r2.key, r['unit']) for r in results for r2 in r['regions'] if r2.kind == 'fn' and (prop in r2.props or prop in ('C17', 'C18')) and (r['modules'] is None or module_map(r['text']).get(r2.out_line0, '') in r['modules'])})
     ex_log = []
